@@ -112,6 +112,9 @@ Qed.
 
 (* --- SPAI-0 --- *)
 Hypothesis Habs2 : forall v : S, sabs v * sabs v = v * v.
+(* real value types: math::adjoint is the identity (spai0.hpp accumulates adjoint(a_ii) since the repair of
+   finding C06-spai0-no-conj; for complex c the relation would be m(c A) = m(A) / c only up to conj(c)/c) *)
+Hypothesis Hadj : forall v : S, sadj v = v.
 
 Lemma row_norm2_acc (r : row) (a : S) :
   fold_left (fun acc (e : nat * S) => acc + sabs (snd e) * sabs (snd e)) r a = a + row_norm2 r.
@@ -135,7 +138,7 @@ Lemma spai0_mscale (A : crs) : spai0_scalable A -> forall i, i < nrows A ->
   vget (spai0_setup (mscale A c)) i = vget (spai0_setup A) i * ci.
 Proof.
   intros HA i Hi.
-  rewrite !spai0_setup_get by (rewrite ?mscale_nrows; exact Hi).
+  rewrite !(fun B k => spai0_setup_get_id B k Hadj) by (rewrite ?mscale_nrows; exact Hi).
   rewrite mscale_nth_row, row_norm2_sce, (mscale_dense Srt). unfold ci. field.
   split; [exact Hc|apply HA, Hi].
 Qed.
